@@ -138,6 +138,36 @@ def excluded(rel, test_decl):
     return rel in test_decl
 
 
+def rust_unescape(s):
+    """the value of a (non-raw) Rust string literal body: line continuations, \\n \\t \\" \\\\ """
+    s = re.sub(r"\\\n\s*", "", s)
+    return s.replace('\\"', '"').replace("\\n", "\n").replace("\\t", "\t").replace("\\\\", "\\")
+
+
+def site_key(st):
+    return "%s|%s|%s" % (st["file"], st["kind"], st["text"])
+
+
+def site_regex(st):
+    """regex that the Display of an error of this site matches in full; None when the text is not in the source"""
+    if st["kind"] == "literal":
+        return re.compile(re.escape(st["text"]) + r"\Z", re.S)
+    if st["kind"] == "format":
+        out, i, tx = "", 0, st["text"]
+        while i < len(tx):
+            if tx.startswith("{{", i):
+                out += re.escape("{"); i += 2
+            elif tx.startswith("}}", i):
+                out += re.escape("}"); i += 2
+            elif tx[i] == "{":
+                j = tx.index("}", i)
+                out += "(?:.*)"; i = j + 1
+            else:
+                out += re.escape(tx[i]); i += 1
+        return re.compile(out + r"\Z", re.S)
+    return None
+
+
 def item_text(s2, m2, pattern, rel):
     """comment-free text of the item whose header matches `pattern` exactly once"""
     found = list(re.finditer(pattern, m2))
@@ -204,6 +234,30 @@ def extract():
             lits.append((rel, s2[q + 1:e]))
     if len(lits) < 20:
         raise ExtractError("only %d Error::new_simple literals found" % len(lits))
+    # inventory of every Error::new_simple(..) site of the library: (file, kind, text); kind = literal | format | expr
+    sites = []
+    for rel in kept:
+        s2, m2 = texts[rel]
+        for mm in re.finditer(r"Error::new_simple\s*\(", m2):
+            i = mm.end()
+            while i < len(m2) and m2[i].isspace():
+                i += 1
+            line = s2.count("\n", 0, mm.start()) + 1
+            fm = re.match(r"format!\s*\(\s*\"", m2[i:i + 40])
+            if m2[i] == '"':
+                e = m2.find('"', i + 1)
+                sites.append({"file": rel, "line": line, "kind": "literal", "text": rust_unescape(s2[i + 1:e])})
+            elif fm:
+                q = i + fm.end() - 1
+                e = m2.find('"', q + 1)
+                if e < 0:
+                    raise ExtractError("unterminated format string in %s" % rel)
+                sites.append({"file": rel, "line": line, "kind": "format", "text": rust_unescape(s2[q + 1:e])})
+            else:
+                j = match_brace(m2, mm.end() - 1)
+                sites.append({"file": rel, "line": line, "kind": "expr", "text": norm(m2[mm.end():j])})
+    if len(sites) < 40:
+        raise ExtractError("only %d Error::new_simple sites found" % len(sites))
     # enum Reason variants
     es, em = texts["prqlc/prqlc-parser/src/error.rs"]
     mm = re.search(r"pub\s+enum\s+Reason\s*\{", em)
@@ -221,7 +275,11 @@ def extract():
             variants.append(t)
     if not variants:
         raise ExtractError("enum Reason: no variants")
-    return {"modelled": modelled, "simple_literals": lits, "reason_variants": variants, "files": kept}
+    return {"modelled": modelled, "simple_literals": lits, "reason_variants": variants, "files": kept, "simple_sites": sites}
+
+
+def cmt(t):
+    return t.replace("*)", "* )").replace("(*", "( *").replace('"', "''").replace("\n", " ")
 
 
 def render(info):
@@ -233,7 +291,10 @@ def render(info):
     v += "Definition simple_literals : list (list N) :=\n  [ " + ";\n    ".join(
         "%s (* %s *)" % (codes(t), f) for f, t in info["simple_literals"]) + " ].\n\n"
     v += "Definition reason_variants : list (list N) :=\n  [ " + "; ".join(
-        "%s (* %s *)" % (codes(t), t) for t in info["reason_variants"]) + " ].\n"
+        "%s (* %s *)" % (codes(t), t) for t in info["reason_variants"]) + " ].\n\n"
+    v += "(* every Error::new_simple(..) site of the library, as file|kind|text, in source order *)\n"
+    v += "Definition simple_sites : list (list N) :=\n  [ " + ";\n    ".join(
+        "%s (* %s *)" % (codes(site_key(st)), cmt(site_key(st))) for st in info["simple_sites"]) + " ].\n"
     return v
 
 
@@ -281,6 +342,10 @@ def write_baseline():
         "(%s,\n     %s) (* %s: %s *)" % (codes(n), codes(t), n, cm(t)) for n, t in info["modelled"]) + " ].\n\n"
     v += "Definition reason_variants_expected : list str :=\n  [ " + "; ".join(
         "%s (* %s *)" % (codes(t), t) for t in info["reason_variants"]) + " ].\n\n"
+    v += "(* the inventory of Error::new_simple sites for which vplib/props/c13_templates.py was last reviewed: a new site is an\n"
+    v += "   unproved obligation until a template (or a reason why none can exist) is recorded and this list re-recorded *)\n"
+    v += "Definition simple_sites_expected : list str :=\n  [ " + ";\n    ".join(
+        "%s (* %s *)" % (codes(site_key(st)), cmt(site_key(st))) for st in info["simple_sites"]) + " ].\n\n"
     v += BASELINE_FUNS
     open(os.path.join(ROOT, "coq", "Model", "SpanBaseline.v"), "w").write(v)
     print("baseline written: %d modelled items, %d variants" % (len(info["modelled"]), len(info["reason_variants"])))
